@@ -20,6 +20,12 @@ def gen_table(ctx):
     path = os.path.join(ctx.dir, "MCTable.tla")
     if not os.path.exists(path):
         ctx.drv(["c01-table", "out=" + path])
+        for mm in json.load(open(path + ".mismatch.json"))[:3]:
+            name = "MarchingCubes" if mm["dim"] == 3 else "MarchingSquares"
+            ctx.violation("%s:one-cell:table" % name,
+                          "%s on the one-cell lattice with corner configuration %d does not produce its lookup-table row "
+                          "(table %s, mesher %s)" % (name, mm["row"], mm["export"], mm["mesher"]),
+                          {"spec": "lattice/McLocal.tla", "mismatch": mm})
     return open(path).read()
 
 
